@@ -61,8 +61,19 @@ func (s *Spec) DFA() (*auto.DFA, map[grammar.Terminal][]auto.State, error) {
 	}
 
 	// Map each terminal to a set of final states while ensuring each final state identifies a single terminal.
+	// The final states are visited in order, so that the result and the error messages are deterministic.
+	finals := make([]auto.State, 0, len(stateDefs))
+	for f := range stateDefs {
+		finals = append(finals, f)
+	}
+
+	sort.Quick(finals, func(lhs, rhs auto.State) int {
+		return int(lhs) - int(rhs)
+	})
+
 	termMap := make(map[grammar.Terminal][]auto.State)
-	for f, defs := range stateDefs {
+	for _, f := range finals {
+		defs := stateDefs[f]
 		switch len(defs) {
 		case 0:
 		case 1:
